@@ -39,8 +39,12 @@ tie (T-acc + T-diff), every run:
       sub-trees (placeholder tops before and after ordinary ones) is compared file by file with each sub-tree translated alone
       (in-process with a fresh pass object, and first-thing in fresh worker processes); every emitted file goes through
       modules_ok and the name -> body map of the whole file set through functional_b, both evaluated in Coq.
-  (e) every IEEE 1800-2017 keyword is used as port / wire / instance / update-block name of a small design: the design is
-      rejected by the translator or its table must pass idents_legal_b in Coq.  The 27 keywords pymtl3's table never had are a
+  (e) IEEE 1800-2017 keywords name EVERY declaration shape of a small design (scalar / 1-D / 2-D lists of ports and wires,
+      struct-typed signals and lists of them, interfaces, lists of interfaces and interface members, sub-components and lists
+      of them, ports and port lists of sub-components, struct fields, struct names, block names, temporaries, free variables,
+      loop variables), used only in connections or touched by an update block: the design is rejected by the translator or its
+      table must pass idents_legal_b in Coq.  thorough: the complete keyword x shape product; quick: complete list for scalar
+      ports and block names, every other shape x (a rotating ninth of the list + 14 common keywords).  The 27 keywords pymtl3's table never had are a
       fixed list in this file (not read from the implementation).
 NOT proof — differential testing only: "Translating the same design any number of times, in fresh processes with different hash
   seeds, produces byte-identical text" is checked by byte-comparing the output of fresh subprocesses under 4 PYTHONHASHSEEDs
@@ -497,31 +501,79 @@ OPT_CLEAN = ['None', '0', '7', "'o'", 'Bits8', 'Pt']
 
 KW_SRC = '''
 from pymtl3 import *
+@bitstruct
+class KwPt:
+  a: Bits8
+  b: Bits4
+class KwIfc( Interface ):
+  def construct( s ):
+    s.msg = InPort( 8 ); s.rdy = OutPort()
+def kw_ifc( kw ):
+  class KwMIfc( Interface ):
+    def construct( s ):
+      setattr( s, kw, InPort( 8 ) ); s.rdy = OutPort()
+  return KwMIfc
 class KwLeaf( Component ):
   def construct( s ):
     s.in_ = InPort( 8 ); s.out = OutPort( 8 )
     s.out //= s.in_
-class KwPort( Component ):
-  def construct( s, kw ):
-    s.out = OutPort( 8 ); setattr( s, kw, InPort( 8 ) )
-    connect( s.out, getattr( s, kw ) )
-class KwWire( Component ):
-  def construct( s, kw ):
-    s.in_ = InPort( 8 ); s.out = OutPort( 8 ); setattr( s, kw, Wire( 8 ) )
-    connect( getattr( s, kw ), s.in_ ); connect( s.out, getattr( s, kw ) )
-class KwInst( Component ):
-  def construct( s, kw ):
-    s.in_ = InPort( 8 ); s.out = OutPort( 8 ); setattr( s, kw, KwLeaf() )
-    connect( getattr( s, kw ).in_, s.in_ ); connect( s.out, getattr( s, kw ).out )
+class KwSubP( Component ):
+  def construct( s, kw, lst ):
+    s.out = OutPort( 8 )
+    if lst:
+      setattr( s, kw, [ InPort( 8 ) for _ in range(2) ] ); connect( s.out, getattr( s, kw )[0] )
+    else:
+      setattr( s, kw, InPort( 8 ) ); connect( s.out, getattr( s, kw ) )
+class KwDecl( Component ):
+  # the reserved word `kw` names a declaration of the given shape; it is used ONLY structurally (connections)
+  def construct( s, kw, shape ):
+    s.in_ = InPort( 8 ); s.out = OutPort( 8 ); s.pin = InPort( KwPt ); s.pout = OutPort( KwPt )
+    g = lambda: getattr( s, kw )
+    if   shape == 'port':       setattr( s, kw, InPort( 8 ) ); connect( s.out, g() )
+    elif shape == 'port1d':     setattr( s, kw, [ InPort( 8 ) for _ in range(2) ] ); connect( s.out, g()[0] )
+    elif shape == 'port2d':     setattr( s, kw, [ [ InPort( 8 ) for _ in range(2) ] for _ in range(2) ] ); connect( s.out, g()[1][0] )
+    elif shape == 'portstruct': setattr( s, kw, InPort( KwPt ) ); connect( s.pout, g() )
+    elif shape == 'outport1d':  setattr( s, kw, [ OutPort( 8 ) for _ in range(2) ] ); [ connect( p, s.in_ ) for p in g() ]
+    elif shape == 'wire':       setattr( s, kw, Wire( 8 ) ); connect( g(), s.in_ ); connect( s.out, g() )
+    elif shape == 'wire1d':     setattr( s, kw, [ Wire( 8 ) for _ in range(2) ] ); [ connect( w, s.in_ ) for w in g() ]; connect( s.out, g()[1] )
+    elif shape == 'wire2d':     setattr( s, kw, [ [ Wire( 8 ) for _ in range(2) ] for _ in range(2) ] ); [ connect( w, s.in_ ) for r in g() for w in r ]; connect( s.out, g()[1][1] )
+    elif shape == 'wirestruct': setattr( s, kw, Wire( KwPt ) ); connect( g(), s.pin ); connect( s.pout, g() )
+    elif shape == 'wirestruct1d': setattr( s, kw, [ Wire( KwPt ) for _ in range(2) ] ); [ connect( w, s.pin ) for w in g() ]; connect( s.pout, g()[0] )
+    elif shape == 'ifc':        setattr( s, kw, KwIfc() ); connect( s.out, g().msg )
+    elif shape == 'ifc1d':      setattr( s, kw, [ KwIfc() for _ in range(2) ] ); connect( s.out, g()[0].msg )
+    elif shape == 'ifcmember':  s.x = kw_ifc( kw )(); connect( s.out, getattr( s.x, kw ) )
+    elif shape == 'inst':       setattr( s, kw, KwLeaf() ); connect( g().in_, s.in_ ); connect( s.out, g().out )
+    elif shape == 'inst1d':     setattr( s, kw, [ KwLeaf() for _ in range(2) ] ); [ connect( x.in_, s.in_ ) for x in g() ]; connect( s.out, g()[0].out )
+    elif shape == 'subport':    s.c = KwSubP( kw, False ); connect( getattr( s.c, kw ), s.in_ ); connect( s.out, s.c.out )
+    elif shape == 'subport1d':  s.c = KwSubP( kw, True ); [ connect( p_, s.in_ ) for p_ in getattr( s.c, kw ) ]; connect( s.out, s.c.out )
+    elif shape == 'structfield':
+      T = mk_bitstruct( 'KwS', { kw: Bits8, 'z': Bits4 } ); s.sp = InPort( T ); s.so = OutPort( T ); connect( s.so, s.sp )
+    elif shape == 'structname':
+      T = mk_bitstruct( kw, { 'y': Bits8, 'z': Bits4 } ); s.sp = InPort( T ); s.so = OutPort( T ); connect( s.so, s.sp )
+    else: assert False, shape
 '''
-KW_BLK = '''
-class KwBlk_{kw}( Component ):
-  def construct( s ):
-    s.in_ = InPort( 8 ); s.out = OutPort( 8 )
-    @update
-    def {kw}():
-      s.out @= s.in_
-'''
+KW_CONN_SHAPES = ['port', 'port1d', 'port2d', 'portstruct', 'outport1d', 'wire', 'wire1d', 'wire2d', 'wirestruct', 'wirestruct1d', 'ifc', 'ifc1d', 'ifcmember',
+                  'inst', 'inst1d', 'subport', 'subport1d', 'structfield', 'structname']
+# the reserved word is touched by an update block: (declaration lines, block name, block body lines)
+KW_BLK_SHAPES = {
+  'blockname':   ([], '{kw}', ['s.out @= s.in_']),
+  'port':        (['s.{kw} = InPort( 8 )'], 'up', ['s.out @= s.{kw}']),
+  'port1d':      (['s.{kw} = [ InPort( 8 ) for _ in range(2) ]'], 'up', ['s.out @= s.{kw}[1]']),
+  'portstruct':  (['s.{kw} = InPort( KwPt )'], 'up', ['s.out @= s.{kw}.a']),
+  'wire':        (['s.{kw} = Wire( 8 )'], 'up', ['s.{kw} @= s.in_', 's.out @= s.{kw}']),
+  'wire1d':      (['s.{kw} = [ Wire( 8 ) for _ in range(2) ]'], 'up', ['s.{kw}[0] @= s.in_', 's.{kw}[1] @= s.in_', 's.out @= s.{kw}[1]']),
+  'inst':        (['s.{kw} = KwLeaf(); s.{kw}.in_ //= s.in_'], 'up', ['s.out @= s.{kw}.out']),
+  'subport':     (["s.c = KwSubP( '{kw}', False )"], 'up', ['s.c.{kw} @= s.in_', 's.out @= s.c.out']),
+  'structfield': (["T = mk_bitstruct( 'KwS', {{ '{kw}': Bits8, 'z': Bits4 }} ); s.sp = InPort( T )"], 'up', ['s.out @= s.sp.{kw}']),
+  'tmpvar':      ([], 'up', ['{kw} = s.in_ + 1', 's.out @= {kw}']),
+  'freevar':     (['{kw} = 3'], 'up', ['s.out @= s.in_ + {kw}']),
+  'loopvar':     (['s.w = [ Wire( 8 ) for _ in range(2) ]'], 'up', ['for {kw} in range(2):', '  s.w[{kw}] @= s.in_', 's.out @= s.w[1]']),
+}
+def kw_blk_class(shape, kw):
+  decl, bn, body = KW_BLK_SHAPES[shape]
+  L = ['s.in_ = InPort( 8 ); s.out = OutPort( 8 )'] + decl + ['@update', f'def {bn}():'] + ['  ' + b for b in body]
+  return f'class KwUse_{shape}_{kw}( Component ):\n  def construct( s ):\n' + ''.join('    ' + l.format(kw=kw) + '\n' for l in L)
+KW_COMMON = ['output', 'input', 'wire', 'reg', 'buf', 'bit', 'logic', 'priority', 'program', 'int', 'type', 'string', 'let', 'checker']
 
 class HGen:
   """a hierarchy of container classes Box0..BoxK (BoxK instantiates leaves, parametrised classes and earlier boxes)"""
@@ -930,6 +982,7 @@ EXPECTED_FROM = {
   'C13:dup-ident-tmpvar~tmpvar': {'tmpvar'},
   'C13:dup-ident-instance~instance': {'arr-inst'},
   'C13:illegal-instance:reserved': {'reserved-inst'},
+  'C13:illegal-struct-field:reserved': {'kw-structfield'},
   'C13:illegal-signal:reserved-since-1800-2009': {'sv2009-kw'},
   'C13:set-param-below-instance-different-body': {'deep-set-param'},
   'C13:container-of-types-param-different-body': {'list-of-struct-types'},
@@ -1141,49 +1194,51 @@ def run(ctx):
       proviso_cases.append(f'({cstr(type(m).__name__)}, {pterm})')
       ctx.count((type(m).__name__, tuple(ps)), True, cls='name-case')
   tph['designs'] = time.time()
-  # ---------------- reserved-word sweep: EVERY IEEE 1800-2017 keyword as port / wire / instance / update-block name.
-  # Each small design must be rejected by the translator, or its table must pass idents_legal_b (decided in Coq below).
+  # ---------------- reserved-word sweep: IEEE 1800-2017 keywords as the name of EVERY declaration shape (scalar / 1-D / 2-D lists
+  # of ports and wires, struct-typed signals, interfaces and their members, sub-components and lists of them, ports of
+  # sub-components, struct fields and struct names, block names, temporaries, free variables, loop variables), used only
+  # structurally (connections) or touched by an update block.  Each small design must be rejected by the translator, or its
+  # table must pass idents_legal_b (decided in Coq below).  thorough: the complete product; quick: the complete keyword list
+  # for scalar ports and block names, every shape x (a rotating ninth of the list + a fixed set of common keywords).
   import keyword as pykw
   kws = sorted(SV2017)
-  ksrc = KW_SRC + ''.join(KW_BLK.format(kw=kw) for kw in kws if not pykw.iskeyword(kw))
-  kmodname = None
+  combos = [('conn', sh) for sh in KW_CONN_SHAPES] + [('blk', sh) for sh in KW_BLK_SHAPES]
+  def wanted(ci, use, sh, ki, kw):
+    if not quick or (use, sh) in (('conn', 'port'), ('blk', 'blockname')) or kw in KW_COMMON: return True
+    return ki % 9 == ci % 9
+  todo = [(use, sh, kw) for ci, (use, sh) in enumerate(combos) for ki, kw in enumerate(kws) if wanted(ci, use, sh, ki, kw)
+          and not (pykw.iskeyword(kw) and (use == 'blk' or sh in ('inst', 'inst1d')))]      # not writable in source / the translator eval()s `m.<name>`
+  ksrc = KW_SRC + ''.join(kw_blk_class(sh, kw) for use, sh, kw in todo if use == 'blk')
   sweep = {'rejected': 0, 'emitted': 0}
   try:
-    KwPort, kmod = sc.load_source(ctx, ksrc, 'KwPort')
-    for kw in kws:
-      for role in ('port', 'wire', 'inst', 'block'):
-        if quick and role in ('wire', 'inst') and kws.index(kw) % 3: continue          # quick tier: complete list as port and block names
-        if role == 'block':
-          if pykw.iskeyword(kw): continue          # not writable as `def <kw>()`
-          mk = getattr(kmod, f'KwBlk_{kw}')
-        else:
-          if role == 'inst' and pykw.iskeyword(kw): continue          # the translator eval()s `m.<name>`: a Python keyword cannot get that far
-          C = getattr(kmod, {'port': 'KwPort', 'wire': 'KwWire', 'inst': 'KwInst'}[role]); mk = (lambda C=C, kw=kw: C(kw))
-        dn = f'KW_{role}_{kw}'
-        feats = {'kw-sweep', 'reserved-inst' if role == 'inst' else ('sv2009-kw' if kw in LACKING_2009 else 'kw-must-be-rejected')}
-        try:
-          txt, topmod = translate_obj(mk())
-        except Exception as e:
-          sweep['rejected'] += 1; ctx.count((dn, 'rejected'), True, cls='kw-sweep:rejected')
-          why = 'reserved-keyword-error' if 'reserved keyword' in str(e) else type(e).__name__
-          sweep['rejected:' + why] = sweep.get('rejected:' + why, 0) + 1
-          if why != 'reserved-keyword-error': ctx.note(f'keyword sweep {dn}: rejected for another reason: {type(e).__name__}: {str(e)[:120]}')
-          continue
-        sweep['emitted'] += 1
-        ctx.count((dn, 'emitted'), True, cls='kw-sweep:translated')
-        try:
-          tbl = parse_sv(txt)
-        except ParseError as e:
-          ctx.violation(f'C13:unparsable-output:kw-sweep', f'keyword {kw!r} as {role} name: emitted file could not be parsed: {e}', {'design_source': ksrc[:3000], 'top': dn, 'keyword': kw, 'role': role, 'output': txt[-2000:]})
-          continue
-        k = len(tab_defs)
-        tab_defs.append(f'Definition t{k} : table := {table_term(tbl, intern)}.\nDefinition i{k} : list inst := [].')
-        for cj in range(6): acc_cases.append(f'({cj}%nat, (t{k}, i{k}))')
-        one = KW_SRC + (KW_BLK.format(kw=kw) if role == 'block' else '') + f'\n# reserved word {kw!r} used as {role} name\ndef {dn}(): return ' + (f'KwBlk_{kw}()' if role == 'block' else f"{C.__name__}( {kw!r} )") + '\n'
-        acc_meta.append((dn, one, feats, tbl, [], txt, 'kw-sweep'))
+    KwDecl, kmod = sc.load_source(ctx, ksrc, 'KwDecl')
+    for use, sh, kw in todo:
+      mk = (lambda sh=sh, kw=kw: KwDecl(kw, sh)) if use == 'conn' else getattr(kmod, f'KwUse_{sh}_{kw}')
+      dn = f'KW_{use}_{sh}_{kw}'
+      feats = {'kw-sweep', 'reserved-inst', 'kw-structfield'} | ({'sv2009-kw'} if kw in LACKING_2009 else {'kw-must-be-rejected'})
+      try:
+        txt, topmod = translate_obj(mk())
+      except Exception as e:
+        sweep['rejected'] += 1; ctx.count((dn, 'rejected'), True, cls=f'kw-sweep:{use}:rejected')
+        why = 'reserved-keyword-error' if 'reserved keyword' in str(e) else type(e).__name__
+        sweep['rejected:' + why] = sweep.get('rejected:' + why, 0) + 1
+        continue
+      sweep['emitted'] += 1
+      ctx.count((dn, 'emitted'), True, cls=f'kw-sweep:{use}:translated')
+      sweep[f'emitted:{use}:{sh}'] = sweep.get(f'emitted:{use}:{sh}', 0) + 1
+      try:
+        tbl = parse_sv(txt)
+      except ParseError as e:
+        ctx.violation(f'C13:unparsable-output:kw-sweep', f'keyword {kw!r} as {sh} name ({use}): emitted file could not be parsed: {e}', {'top': dn, 'keyword': kw, 'shape': sh, 'use': use, 'output': txt[-2000:]})
+        continue
+      k = len(tab_defs)
+      tab_defs.append(f'Definition t{k} : table := {table_term(tbl, intern)}.\nDefinition i{k} : list inst := [].')
+      for cj in range(6): acc_cases.append(f'({cj}%nat, (t{k}, i{k}))')
+      one = KW_SRC + (kw_blk_class(sh, kw) if use == 'blk' else '') + f'\n# reserved word {kw!r} names a declaration of shape {sh!r}, use: {use}\ndef {dn}(): return ' + (f'KwUse_{sh}_{kw}()' if use == 'blk' else f"KwDecl( {kw!r}, {sh!r} )") + '\n'
+      acc_meta.append((dn, one, feats, tbl, [], txt, 'kw-sweep'))
   except Exception as e:
     ctx.violation('C13:harness-crash', f'reserved-word sweep could not run: {e!r}', {'traceback': traceback.format_exc()}, found_input=False)
-  ctx.extra['keyword_sweep'] = dict(sweep, keywords=len(kws), roles=['port', 'wire', 'inst', 'block'])
+  ctx.extra['keyword_sweep'] = dict(sweep, keywords=len(kws), designs=len(todo), shapes_structural=KW_CONN_SHAPES, shapes_in_update_block=list(KW_BLK_SHAPES))
   ctx.extra.update({'designs_generated': len(designs), 'designs_translated': ntrans, 'designs_rejected_by_translator': nrej})
   if ntrans < 0.7 * len(designs):
     ctx.violation('C13:harness-crash', f'only {ntrans} of {len(designs)} generated designs were translated: no correspondence', {'notes': ctx.notes[:10]}, found_input=False)
@@ -1247,6 +1302,7 @@ Definition conj (c : nat * (table * list inst)) : bool :=
           found = True
           why = 'reserved-since-1800-2009' if nm in LACKING_2009 else 'reserved'
           if cat == 'instance': key_ = vkey('C13:illegal-instance:reserved', feats)                       # sub-component names are never checked
+          elif cat == 'struct-field': key_ = vkey('C13:illegal-struct-field:reserved', feats)             # bitstruct field names are never checked (when used structurally)
           elif nm in LACKING_2009: key_ = vkey('C13:illegal-signal:reserved-since-1800-2009', feats)     # keywords pymtl3's table never had
           else: key_ = f'C13:illegal-{cat}:reserved:{nm}'                                                # a keyword pymtl3 is meant to reject
           ctx.violation(key_, f'design {name}: {cat} {nm!r} is a SystemVerilog reserved word ({why}) but was emitted as an identifier', dict(rep, identifier=nm, category=cat))
@@ -1445,6 +1501,10 @@ def _replay(ctx, r):
     print('module', repr(md['name']), 'instantiates', md['insts'], '| duplicate identifiers', d, '| illegal identifiers', ill, '| undefined modules', undef)
     bad += len(d) + len(ill) + len(undef) + (0 if ID.match(md['name']) and md['name'] not in SV2017 else 1)
   bad += len(names) - len(set(names))
+  for tn, fs in tbl['types']:
+    ill = [x for x in [tn] + fs if not ID.match(x) or x in SV2017]
+    print('typedef', repr(tn), 'fields', fs, '| illegal identifiers', ill, '| duplicate fields', sorted({x for x in fs if fs.count(x) > 1}))
+    bad += len(ill) + (len(fs) - len(set(fs)))
   modidx = {}
   for md in tbl['mods']: modidx.setdefault(md['name'], md)
   used = {id(top): topmod}
